@@ -41,6 +41,7 @@ type c09Cfg struct {
 	Layout    string   `json:"layout"`
 	Upper     []string `json:"upper,omitempty"`
 	reconnect bool
+	listen    bool // started with ListenAndServe instead of Serve(conn)
 }
 
 type c09Params struct {
@@ -541,6 +542,7 @@ func c09Run(c *core.Ctx, b core.Batch) {
 		cfg := c09RandCfg(r, p.Shard*p.N+i)
 		cfg.Name = []string{"", "svc", "a.b"}[i%3]
 		cfg.reconnect = i%3 == 1 || i == 0
+		cfg.listen = i%2 == 0
 		if cfg.Pre == "restart" {
 			cfg.Pre = "reconfigured" // the two-run scenario is only driven on the recording connection
 		}
@@ -558,12 +560,18 @@ func c09Nats(c *core.Ctx, ne *natsenv.Env, cfg c09Cfg) {
 	sig := c09CfgSig(cfg)
 	desc := map[string]interface{}{"config": cfg, "transport": "embedded nats-server"}
 	reconnected := make(chan struct{}, 4)
-	// the service reconnects later than the gateway so that the gateway sees the reset
-	nc, err := ne.Connect("svc", nats.ReconnectWait(400*time.Millisecond))
-	if err != nil {
-		c.Inconclusive("connect: " + err.Error())
-		return
+	// the service reconnects later than the gateway so that the gateway sees the reset.
+	// Every other configuration lets the service make its own connection (ListenAndServe).
+	var nc *nats.Conn
+	var err error
+	if !cfg.listen {
+		nc, err = ne.Connect("svc", nats.ReconnectWait(400*time.Millisecond))
+		if err != nil {
+			c.Inconclusive("connect: " + err.Error())
+			return
+		}
 	}
+	desc["started_with"] = map[bool]string{false: "Serve(conn)", true: "ListenAndServe(url)"}[cfg.listen]
 	svc := res.NewService(cfg.Name)
 	svc.SetLogger(&cntLogger{})
 	c09Configure(svc, cfg)
@@ -572,16 +580,31 @@ func c09Nats(c *core.Ctx, ne *natsenv.Env, cfg c09Cfg) {
 	svc.SetOnServe(func(*res.Service) { close(served) })
 	ret := make(chan error, 1)
 	wireStart := ne.WireLen()
-	go func() { ret <- svc.Serve(nc) }()
+	go func() {
+		if cfg.listen {
+			ret <- svc.ListenAndServe(ne.URL, nats.ReconnectWait(400*time.Millisecond))
+		} else {
+			ret <- svc.Serve(nc)
+		}
+	}()
 	select {
 	case <-served:
 	case err := <-ret:
 		c.Violation("C09/serve-failed:"+sig, fmt.Sprintf("Serve on a real NATS connection failed for a servable configuration: %v", err), desc)
-		nc.Close()
+		if nc != nil {
+			nc.Close()
+		}
 		return
 	case <-time.After(10 * time.Second):
 		c.Inconclusive("service did not start on nats")
 		return
+	}
+	if cfg.listen {
+		nc, _ = svc.Conn().(*nats.Conn)
+		if nc == nil {
+			c.Inconclusive("ListenAndServe: no nats connection")
+			return
+		}
 	}
 	nc.Flush()
 	defer func() {
@@ -630,11 +653,24 @@ func c09Nats(c *core.Ctx, ne *natsenv.Env, cfg c09Cfg) {
 			c.Inconclusive("server restart: " + err.Error())
 			return
 		}
+		// the connection itself tells when it is back (the service's OnReconnect callback is
+		// only a second witness)
+		back := false
+		for i := 0; i < 1500 && !back; i++ {
+			if nc.Stats().Reconnects > 0 && nc.IsConnected() {
+				back = true
+				break
+			}
+			time.Sleep(10 * time.Millisecond)
+		}
+		if !back {
+			c.Inconclusive("service connection did not reconnect")
+			return
+		}
 		select {
 		case <-reconnected:
-		case <-time.After(15 * time.Second):
-			c.Inconclusive("service did not reconnect")
-			return
+		case <-time.After(2 * time.Second):
+			c.Violation("C09/no-reconnect-callback:"+sig, "the service's connection reconnected but the service took no notice (no OnReconnect callback)", desc)
 		}
 		nc.Flush()
 		c.Obs("reconnects", 1)
